@@ -44,6 +44,14 @@ func (e *Engine) contractFor(fn *ssa.Function) *Contract {
 	if k == "" {
 		return nil
 	}
+	// a root verified under a contract variant (Key#variant) uses the same variant of its callees when it exists
+	if e.rootC != nil {
+		if i := strings.Index(e.rootC.Key, "#"); i >= 0 {
+			if c, ok := e.cs.Funcs[k+e.rootC.Key[i:]]; ok {
+				return c
+			}
+		}
+	}
 	return e.cs.Funcs[k]
 }
 
